@@ -80,6 +80,14 @@ LATIN1_TREE = {
     "ü": None, "ü/ü.txt": b"u", "ü.html": b"<u>", "ý/index.html": b"<y>", "naïve dir/index.html": b"<naive>", "plain ä": None, "plain ä/x.txt": b"x",
     "dir/ß": None, "dir/ß.html": b"<ss>",
 }
+# files and directories whose names contain control characters (legal on POSIX file systems; a client names them with %0A etc.):
+# served as application/octet-stream (Content-Disposition is built from the name) and as known types, as directories with index page
+CONTROL_TREE = {
+    "line\nbreak": b"lf", "cr\rname.bin": b"cr", "tab\tname": b"tab", "esc\x1bname.zzz": b"esc", "del\x7fname": b"del", "vt\x0bfile.txt": b"vt", "nl\nx.html": b"<nl>",
+    "crlf\r\nSet-Cookie: x=1": b"inj", "nl\ndir/index.html": b"<nldir>", "nl\ndir/f\n.bin": b"f", "quo\"te.bin": b"q", "back\\slash.bin": b"b", "semi;colon.bin": b"s",
+}
+CONTROL_PATHS = [b"/line\nbreak", b"/cr\rname.bin", b"/tab\tname", b"/esc\x1bname.zzz", b"/del\x7fname", b"/vt\x0bfile.txt", b"/nl\nx.html", b"/nl\nx", b"/crlf\r\nSet-Cookie: x=1",
+                 b"/nl\ndir", b"/nl\ndir/", b"/nl\ndir/f\n.bin", b"/quo\"te.bin", b"/back\\slash.bin", b"/semi;colon.bin", b"/line\nbreak/", b"/line\nbrea", b"/static/line\nbreak", b"/p/nl\ndir"]
 LATIN1_NAMES = ["café", "café/ñ", "café/ö", "café/é.html", "café/é", "café/ñ/f.txt", "café.txt", "ü", "ü/ü.txt", "ü.html", "ý", "naïve dir", "plain ä", "plain ä/x.txt", "dir/ß", "café/index.html", "café/zz", "cafe"]
 
 
@@ -101,6 +109,7 @@ def static_dir():
     if _DIR is None:
         tree = {"index.html": b"<html>", "file.txt": b"hello world", "dir/index.html": b"<dir>", "dir/a.html": b"a", "é.txt": b"e", "empty.txt": b""}
         tree.update(LATIN1_TREE)
+        tree.update(CONTROL_TREE)
         _DIR = recipes.materialise(tree)
         # entries a deployed directory may contain and a client may name: a symbolic-link loop (stat -> ELOOP) and a dangling link
         for name, target in (("loop", "loop"), ("dangling", "nowhere"), ("dir/up", "../dir/up")):
@@ -631,6 +640,7 @@ PATHS_EXTRA = [
     b"/d/1e1000000000000000000", b"/d/10e999999999999999999", b"/d/1e-99999999999999999999999999", b"/d/0.0e" + b"9" * 5000, b"/d/1E" + b"9" * 30, b"/d/1e+" + b"9" * 25,
     b"/d/1.5e400", b"/d/1e309", b"/d/-0e" + b"9" * 40, b"/d/sNaN123", b"/d/inf", b"/d/-Infinity", b"/d/0x1p5", b"/d/1__0", b"/d/\xef\xbc\x91.5",
     b"/i/1e5", b"/i/1e" + b"9" * 30, b"/i/0x" + b"f" * 5000, b"/i/0b1", b"/i/1_000", b"/i/+" + b"9" * 5000, b"/i/-0", b"/i/\xe0\xa5\xa7",
+    *CONTROL_PATHS,
     b"/t/2021-02-30", b"/t/+2021-03-07", b"/t/2021-W10-1", b"/t/20210307", b"/t/2021-03-07T00:00", b"/t/10000-01-01", b"/t/" + b"9" * 30 + b"-01-01",
     b"/i/-1", b"/i/+1", b"/i/1_0", b"/i/ 1", b"/i/1 ", b"/i/0x10", b"/i/" + b"9" * 4300, b"/i/" + b"9" * 4301, b"/i/" + b"0" * 5000, b"/i/1.0", b"/i/\xc2\xb2", b"/i/\xef\xbc\x91", b"/i/1\n", b"/i/",
     b"/t/" + b"9" * 20 + b"-01-01", b"/t/99999-01-01", b"/t/10000-01-01", b"/t/2021-1-1", b"/t/2021-01-1", b"/t/2021-02-30", b"/t/2021-02-29", b"/t/2020-02-29", b"/t/9999-12-31", b"/t/0001-01-01", b"/t/2021-00-10",
